@@ -235,6 +235,11 @@ def main():
                               'if u < 0 { "q"; }', 'if 3 { "q"; }', 'x = [(x == 1) + (x == 2)];', 'if x << 1 { "q"; }', 'x = [0 - 2147483648];',
                               'u = [0 - 1];', 'x = [x * 0];', 'if x / 1 == x { "q"; }', 'x = [1 - -1];']):
         progs.append({"name": f"const-corner-{k}", "src": decl + 'parser { "a"; ' + stmt + ' "z"; }\n', "args": [], "feats": {}, "origin": "const-corner"})
+    # start-up actions (nothing has been read yet): what is accepted there has to compile as part of start()
+    for k, body in enumerate(['if $last == 65 { x = 1; } "a";', 'x = [$last]; "a";', 'if x == 0 { u = 2; } else { u = 3; } "a";',
+                              'optional { "q"; } if $last == 1 { x = 1; } "a";', 's += [$last]; "a";', 's = "ab"; if s[0] == 97 { x = 1; } "a";',
+                              'if s.len == 0 { s += [65]; } "a";']):
+        progs.append({"name": f"start-actions-{k}", "src": decl + "out str[4] s;\nparser { " + body + " }\n", "args": ["-feof-support"], "feats": {}, "origin": "start-actions"})
     wd = common.scratch_dir("c11")
     try:
         with mp.Pool(min(15, os.cpu_count() or 4)) as pool:
